@@ -546,6 +546,8 @@ class Raster(Suite):
         out.extend(self.branch_cases(rng, tier == "thorough" or widen))
         out.extend(self.seq_cases(rng, tier == "thorough" or widen))
         out.extend(self.long_path_cases(rng, tier == "thorough" or widen))
+        out.extend(self.nested_cases(rng, tier == "thorough" or widen))
+        out.extend(self.label_cases(rng, tier == "thorough" or widen))
         return out
 
     # LONG UNBRANCHED RUNS: an axon, or any process of a resampled reconstruction, is a run of thousands of nodes a fraction of a micron apart.
@@ -671,6 +673,100 @@ class Raster(Suite):
         t = {"class": "branch/sorted", "n": n, "pids": pids, "types": [1] + [3] * (n - 1), "xyz": xyz, "r": r}
         return {"class": f"n{n}/branch-contained/{direction}/{pos}-of-{k}" + ("/stem" if stem else "/root") + (f"/{len(degenerate)}-degenerate" if len(degenerate) > 1 else ""),
                 "tree": t, "res": rng.choice([0.5, 1.0, 1.0, 0.75, [1.0, 0.5, 2.0], [1.0, 1.0, 0.5]]), "siblings": kinds}
+
+    # a THICK NODE (cell body, bouton) WHOSE BALL HOLDS THE START OF ITS PROCESSES: k ≥ 2 children of one node, of which ALL, all but one, or just
+    # one lie with their whole ball inside the node's ball (the first point of a neurite is often placed inside the soma).  The thick node is the
+    # root or hangs on a stem; nested children may go on to a point far outside (the neurite proper) or end there.  Whatever the mix, the node's
+    # ball belongs to the union (it is an end ball of each of its edges).
+    NESTED = ["all", "all", "all-but-one", "one"]
+
+    def nested_cases(self, rng, big):
+        out = []
+        for share in self.NESTED * (3 if big else 1):
+            for at_root in ([True, False] if share == "all" or big else [rng.random() < 0.5]):
+                out.append(self.nested_case(rng, share, at_root))
+        return out
+
+    @staticmethod
+    def nested_case(rng, share, at_root):
+        k = rng.choice([2, 2, 3, 4])
+        g = lambda lo, hi: rng.choice([-1, 1]) * rng.randint(lo, hi) / 8.0
+        centre = [g(0, 16) for _ in range(3)]
+        rp = rng.choice([1.5, 2.0, 2.5, 3.0, 4.0])
+        xyz, r, pids = [], [], []
+        if not at_root:
+            xyz.append([centre[j] + (g(int(rp * 8) + 12, int(rp * 8) + 28) if j == 0 else g(0, 16)) for j in range(3)]); r.append(rng.choice([0.5, 1.0])); pids.append(-1)
+        bp = len(xyz)
+        xyz.append(centre); r.append(rp); pids.append(bp - 1)
+        nested = set(range(k)) if share == "all" else (set(rng.sample(range(k), k - 1)) if share == "all-but-one" else {rng.randrange(k)})
+        for i in range(k):
+            rc = rng.choice([x for x in (0.25, 0.5, 0.75, 1.0, 1.5) if x < rp])
+            if i in nested:
+                lim = rp - rc
+                for _try in range(200):
+                    d = [rng.randint(-int(lim * 8), int(lim * 8)) / 8.0 for _ in range(3)]
+                    if math.sqrt(sum(v * v for v in d)) <= lim - 1 / 64:
+                        break
+                else:
+                    d = [0.0, 0.0, 0.0]
+            else:
+                d = [g(0, 16) for _ in range(3)]; d[rng.randrange(3)] = g(int(rp * 8) + 16, int(rp * 8) + 40)
+            xyz.append([centre[j] + d[j] for j in range(3)]); r.append(rc); pids.append(bp)
+        goes_on = 0
+        for i in sorted(nested):
+            if rng.random() < 0.4:
+                c = bp + 1 + i; ax = rng.randrange(3)
+                d = [g(0, 12) for _ in range(3)]; d[ax] = g(int(rp * 8) + 12, int(rp * 8) + 32)
+                xyz.append([centre[j] + d[j] for j in range(3)]); r.append(rng.choice([0.25, 0.5, 0.75])); pids.append(c); goes_on += 1
+        n = len(xyz)
+        t = {"class": "nested/sorted", "n": n, "pids": pids, "types": [1] + [rng.choice([2, 3, 4]) for _ in range(n - 1)], "xyz": xyz, "r": r}
+        return {"class": f"n{n}/ball-holds-children/{share}-of-{k}-nested/" + ("root" if at_root else "stem") + (f"/{goes_on}-go-on" if goes_on else ""),
+                "tree": t, "res": rng.choice([0.5, 1.0, 1.0, 0.75, [1.0, 0.5, 2.0], [1.0, 1.0, 0.5]])}
+
+    # THE TYPE COLUMN: the property speaks of parents, children, positions and radii only, so the structure identifiers must not change a voxel.
+    # The same kinds of small trees under the labelings reconstructions carry: the multi-point soma (the root and its first children typed soma -
+    # the three-point soma of NeuroMorpho.org: centre plus two points at -/+ r along an axis, all of radius r -, neurites leaving any of them), a
+    # run of soma-typed nodes from the root (contour somata), a soma-typed pair in the middle of the tree, every node soma, no soma at all (a
+    # fragment), one type throughout, undefined (0) and custom (≥ 5) identifiers.
+    LABELS = ["three-point-soma", "three-point-soma", "soma-run", "soma-pair-inside", "all-soma", "no-soma", "undefined-custom"]
+
+    def label_cases(self, rng, big):
+        return [self.label_case(rng, lab) for lab in self.LABELS * (3 if big else 1)]
+
+    @staticmethod
+    def label_case(rng, lab):
+        g = lambda lo, hi: rng.choice([-1, 1]) * rng.randint(lo, hi) / 8.0
+        if lab == "three-point-soma":
+            rs_ = rng.choice([1.0, 1.5, 2.0, 2.5, 3.0, 4.0]); ax = rng.randrange(3)
+            centre = [g(0, 16) for _ in range(3)]
+            sat = lambda s: [centre[j] + (s * rs_ if j == ax else 0.0) for j in range(3)]
+            xyz, r, pids, ty = [centre, sat(-1), sat(1)], [rs_] * 3, [-1, 0, 0], [1, 1, 1]
+            for _ in range(rng.randint(0, 3)):
+                par = rng.randrange(3); bx = rng.choice([j for j in range(3) if j != ax])
+                d = [g(0, 12) for _ in range(3)]; d[bx] = g(int(rs_ * 8) + 8, int(rs_ * 8) + 32)
+                xyz.append([xyz[par][j] + d[j] for j in range(3)]); r.append(rng.choice([0.25, 0.5, 0.75])); pids.append(par); ty.append(rng.choice([2, 3, 4]))
+            t = {"class": "three-point-soma/sorted", "n": len(xyz), "pids": pids, "types": ty, "xyz": xyz, "r": r}
+        else:
+            n = rng.choice([3, 4, 5])
+            t = gen.tree_case(rng, n, rng.choice(["chain", "caterpillar", "stem", "random", "star"]), numbering="sorted", coords="lattice")
+            n, pids = t["n"], t["pids"]
+            t["xyz"] = [[c / 6.0 for c in p] for p in t["xyz"]]
+            t["r"] = [rng.choice([0.5, 1.0, 1.5]) for _ in t["r"]]
+            other = lambda: rng.choice([2, 3, 4])
+            if lab == "soma-run":
+                m = rng.randint(2, n)                      # the first m nodes (parents come first: a connected set holding the root)
+                ty = [1] * m + [other() for _ in range(n - m)]
+            elif lab == "soma-pair-inside":
+                c = rng.choice([i for i in range(1, n) if pids[i] > 0] or [n - 1])
+                ty = [rng.choice([1, 3]) if i == 0 else (1 if i in (c, pids[c]) else other()) for i in range(n)]
+            elif lab == "all-soma":
+                ty = [1] * n
+            elif lab == "no-soma":
+                ty = [other() for _ in range(n)] if rng.random() < 0.5 else [other()] * n
+            else:
+                ty = [rng.choice([0, 5, 6, 7, 10]) for _ in range(n)]
+            t["types"] = ty
+        return {"class": f"n{t['n']}/type-column/{lab}", "tree": t, "res": rng.choice([0.5, 1.0, 1.0, 0.75, [1.0, 0.5, 2.0]])}
 
     # a SEQUENCE of rasterisations, as a pipeline does them: a neuron read from an SWC file (it then carries its `source`) or built in memory, and
     # variants of it - the augmentations and edits of the library (translated, mirrored, rescaled, radii reset, a tip pruned, the file edited and
